@@ -75,20 +75,20 @@ def parseEnv (j : Json) : Env :=
   let lc := jF j "litcls"
   let seq := jF j "seq"
   let mp := jF j "map"
-  { sub := fun a b => (sub[a]?.getD 0).testBit b
+  { sub := fun a b => a == b || (sub[a]?.getD 0).testBit b
     name := fun c => names[c]?.getD 0
     baseName := fun c => (bases[c]?).getD Option.none
     ctx := fun n => (ctx.find? (·.1 == n)).map (·.2)
     fieldNames := fun c => (fields[c]?).getD Option.none
     litCls := fun l => match l with
-      | .none => jN (jF lc "none") | .bool _ => jN (jF lc "bool") | .int _ => jN (jF lc "int")
-      | .str _ => jN (jF lc "str") | .bytes _ => jN (jF lc "bytes") | .flt _ _ => jN (jF lc "flt")
+      | .none => jN (jF lc "none") | .bool => jN (jF lc "bool") | .int => jN (jF lc "int")
+      | .str => jN (jF lc "str") | .bytes => jN (jF lc "bytes") | .flt => jN (jF lc "flt")
     tupleCls := jN (jF j "tuple")
     typeCls := jN (jF j "type")
     iteratorCls := jN (jF j "iterator")
     seqCls := fun o => jN (jF seq (seqOName o))
     mapCls := fun o => jN (jF mp (mapOName o))
-    metaOf := fun c => metaA[c]?.getD 0 }
+    metaOf := fun c => metaA[c]?.getD (jN (jF j "type")) }
 
 def outStr : Out → String
   | .accept => "accept" | .reject => "reject" | .pedErr => "pedErr" | .tvMismatch => "tvMismatch" | .escape => "escape"
